@@ -245,6 +245,29 @@ example : (symmetricLayout ⟨.east, 5, 20⟩ true 0 8 10 (southEast.mapForest e
     = (symmetricLayout ⟨.south, 5, 20⟩ true 0 10 8 exKidsA).nodes.map (fun n => (n.id, n.c.y, n.c.x)) := by
   decide +kernel
 
+/-! ### (7) a quirk of the code as coded (outside the C19 property text; recorded because the model has it)
+
+`computeIsomString` never increments its class counter, so its string does not determine the isomorphism
+class.  Two non-isomorphic subtrees with the same string form one class of even order and `symmetricLayout`
+reports `isSymmetrical() = true` for a drawing that is not mirror symmetric.  The harness replays this tree
+against the C++ (`layoutx-quirk-witness`) and the exact tie confirms the flag and all positions. -/
+
+def lf (i : Nat) (rest : Forest) : Forest := .cons i 30 30 .nil rest
+def nd (i : Nat) (kids rest : Forest) : Forest := .cons i 30 30 kids rest
+/-- T1 = {x:{p₁,q₂}, y:{p₁,q₂}} and T2 = {x:{p₁,p₁}, y:{q₂,q₂}} (pₐ = node with a leaves) under one root -/
+def quirkKids : Forest :=
+  nd 1 (nd 2 (nd 3 (lf 4 .nil) (nd 5 (lf 6 (lf 7 .nil)) .nil))
+             (nd 8 (nd 9 (lf 10 .nil) (nd 11 (lf 12 (lf 13 .nil)) .nil)) .nil))
+  (nd 14 (nd 15 (nd 16 (lf 17 .nil) (nd 18 (lf 19 .nil) .nil))
+               (nd 20 (nd 21 (lf 22 (lf 23 .nil)) (nd 24 (lf 25 (lf 26 .nil)) .nil)) .nil)) .nil)
+
+theorem isSymmetrical_flag_unsound :
+    isSymmetrical quirkKids = true ∧
+    ∃ n ∈ (symmetricLayout ⟨.south, 10, 50⟩ true 0 30 30 quirkKids).nodes,
+      ∀ m ∈ (symmetricLayout ⟨.south, 10, 50⟩ true 0 30 30 quirkKids).nodes,
+        ¬ (m.c.x = -n.c.x ∧ m.c.y = n.c.y) := by
+  decide +kernel
+
 /-! ### non-vacuity -/
 
 /-- a 5-node tree with an asymmetric subtree: three c-trees of the root, one placed centrally, one on each
